@@ -20,14 +20,14 @@ TIER = 'quick'
 LEVEL = 'exploration'
 ENGINE = 'history'
 BUDGET = {'quick': 8000, 'thorough': 100000}
-WALL = {'quick': 90, 'thorough': 1500}
+WALL = {'quick': 60, 'thorough': 1500}
 RULE = ('one trash-empty (all modes) or trash-rm per case over trash content with symlink payloads (absolute, relative, dangling, '
         'chains, to files and to directories outside), directory payloads containing such links at depth <= 4, odd info names, trash '
         'dirs reached through symlinked HOME / XDG_DATA_HOME or named by --trash-dir <symlink>/../<dir> next to a decoy at the textually collapsed path; non-trivial = at least one purged payload is or contains a symlink '
         'to something outside; distinct = (command, link kinds purged, depth)')
 ASSUMPTIONS = ['the checks run as root: the permission failures an ordinary user meets (unlink inside a read-only directory: EACCES) are emulated by injected persistent conditions',
                "a trash directory whose files/ or info/ is itself a symlink (foreign damage) is not generated: what 'under files/' means there is debatable"]
-PROBES = ['tree-deeper-than-the-recursion-limit', 'trash-dir-spelled-through-symlink-dotdot', 'permission-conditions', 'link-payload-purged', 'link-inside-dir-purged', 'dangling-purged', 'through-symlinked-home', 'rm-command', 'empty-command',
+PROBES = ['trash-dir-is-itself-a-symlink', 'tree-deeper-than-the-recursion-limit', 'trash-dir-spelled-through-symlink-dotdot', 'permission-conditions', 'link-payload-purged', 'link-inside-dir-purged', 'dangling-purged', 'through-symlinked-home', 'rm-command', 'empty-command',
           'mutating-ops-monitored', 'rmtree-used']
 TECHNIQUE = 'deterministic simulation with an in-kernel containment monitor on every mutating op plus full-snapshot frame check'
 LEVEL_TEXT = ('seeded exploration of trash contents; containment is evaluated at the op that would break it (resolved target of each '
@@ -56,6 +56,11 @@ def gen(rng):
     steps.append(['f', home + '/precious/sub/deep.txt', 'deep', 0o600])
     for v in L['vols']:
         steps.append(['f', L['work'][v] + '/volkeep', 'vk', 0o644])
+    if rng.random() < 0.15:
+        # the trash directory ITSELF (its last component) is a symlink: ~/.local/share/Trash -> a directory elsewhere
+        ht_ = G.home_trash_of(env)
+        steps.append(['d', home + '/store/RealTrash', 0o700])
+        steps.append(['l', ht_, home + '/store/RealTrash'])
     locs = [t for t in TG.trash_locations(L2) if t[2]]
     n = rng.choice([1, 2, 3, 5])
     names = []
@@ -120,7 +125,7 @@ def gen(rng):
             steps.append(['l', tdir + '/files/eiolink', home + '/precious'])
             steps.append(['f', tdir + '/info/eiolink.trashinfo', G.fmt_info(TG.pct(home + '/w/eiolink'), '2021-01-02T00:00:00'), 0o600])
             faults.append({'kind': 'cond', 'what': 'immutable', 'entry': '%RESOLVE%' + tdir + '/files/eiolink'})
-    abyss = rng.random() < (0.0005 if TIER == 'quick' else 0.002)      # expensive: every op resolves a path of 1100 components
+    abyss = rng.random() < 0.004
     if abyss:
         # an abyss: a trashed tree nested deeper than the interpreter's recursion limit, with links to the outside at its top
         # and at its bottom.  shutil.rmtree gives up with RecursionError there; whatever the command does about it, the link
@@ -259,6 +264,8 @@ def check(sim, case, st):
         st.probes['tree-deeper-than-the-recursion-limit'] += 1
         if r.exc is not None and 'Recursion' in r.exc:
             st.probes['rmtree-gave-up-with-RecursionError'] += 1
+    if any(k.endswith('/store/RealTrash') for k in snap0):
+        st.probes['trash-dir-is-itself-a-symlink'] += 1
     if any('/stick/../' in a for a in argv):
         st.probes['trash-dir-spelled-through-symlink-dotdot'] += 1
     if env.get('HOME', '').endswith('ulink') or 'xdglink' in env.get('XDG_DATA_HOME', ''):
